@@ -237,7 +237,10 @@ def _register2(op, g):
             codes.append(ent)
         # the same program as `marshal.dumps(compile(...))` writes it: the temporary has one reference, so from
         # marshal format 3 on the top-level code object carries no FLAG_REF and reference 0 is whatever comes first
-        nf = marshal.dumps(compile(a["source"], a.get("filename", "prog.py"), "exec"))
+        if PY >= (3, 8):
+            nf = marshal.dumps(co.replace(co_name=co.co_name))       # a temporary copy (of the crafted body too)
+        else:
+            nf = marshal.dumps(compile(a["source"], a.get("filename", "prog.py"), "exec"))
         return {"pyc": tohex(hdr + body), "codes": codes, "magic": struct.unpack("<H", magic[:2])[0], "payload_unflagged": tohex(nf)}
 
 
